@@ -193,7 +193,13 @@ let c13_lseq id shard thr ops =
   let cfg = { M.cfg_shard = mz_of_string shard; M.cfg_threshold = nat_of_int (int_of_string thr) } in
   (* the controller is started with NewTerm(1) + BecomeLeader on empty stores *)
   let node = ref { M.n_st = M.update_term M.init_state (mz_of_string "1") true M.N0; M.n_log = [] } and leading = ref true in
+  (* E:0 (first op only): the controller is started with NewTermOptions{EnableNotifications:false}, and so are the restarts *)
+  let en = ref true in
   let run op = match String.split_on_char ':' op with
+    | ["E"; b] ->
+      en := (b = "1");
+      node := { M.n_st = M.enable_notifications (M.update_term M.init_state (mz_of_string "1") !en M.N0) !en; M.n_log = [] };
+      "ok"
     | ["W"; _; ts; puts; dels; ranges] ->
       if not !leading then "not-leader" else begin
         let (n', out) = M.leader_write cfg !node (c13_req puts dels ranges) (n_of_string ts) in
@@ -206,12 +212,12 @@ let c13_lseq id shard thr ops =
           ^ ":" ^ join "," (List.map status_s resp.M.wr_dels) ^ ":" ^ join "," (List.map status_s resp.M.wr_ranges)
       end
     | ["B"; term] ->
-      let (n', r) = M.leader_restart cfg !node (mz_of_string term) M.N0 in
+      let (n', r) = M.leader_restart cfg !node (mz_of_string term) !en M.N0 in
       node := n';
       (match r with None -> leading := true; "ok" | Some _ -> leading := false; "blocked")
     | ["F"; term] ->
       leading := false;
-      (match M.apply_log cfg (M.update_term M.init_state (mz_of_string term) true M.N0) (!node).M.n_log with
+      (match M.apply_log cfg (M.enable_notifications (M.update_term M.init_state (mz_of_string term) !en M.N0) !en) (!node).M.n_log with
        | (_, None) -> "ok" | (_, Some _) -> "blocked")
     | _ -> failwith ("bad lseq op " ^ op) in
   Printf.printf "%s %s\n" id (String.concat ";" (List.map run (String.split_on_char ';' ops)))
@@ -261,6 +267,7 @@ let c16_sub id shard thr prefix steps =
        | Some (_, true, Some _) -> act M.Publish
        | _ -> ());
       pending := None; "ok"
+    | ["E"; b] -> st := M.enable_notifications !st (b = "1"); "ok"
     | ["S"] -> act M.SubRegister; act M.SubRead; act M.SubWrite; "ok"
     | ["SR"] -> act M.SubRegister; act M.SubRead; "ok"
     | ["SW"] -> act M.SubWrite; "ok"
@@ -295,6 +302,7 @@ let c16_msub id shard thr steps =
     let ((st', r), _) = M.process_write_full M.wrapper_callbacks cfg !st req (mz_of_string (string_of_int !off)) (n_of_string (string_of_int (1000 + !off))) in
     st := st'; r in
   let run step = match String.split_on_char ':' step with
+    | ["E"; b] -> st := M.enable_notifications !st (b = "1"); "ok"
     | ["T"; p] -> let p = bytes_of_hex p in tact (M.TAdd (p, highest p)); "ok"
     | ["K"; n] -> tact (M.TClose (nat_of_int (int_of_string n))); "ok"
     | ["Q"; p; ds] ->
